@@ -61,6 +61,16 @@ func VerifyNameErrorNSEC(msg *dns.Msg, nsecSet []dns.RR) error {
 		return ErrNSECMissingCoverage
 	}
 
+	// An NSEC whose next name lies below QNAME spans an empty
+	// non-terminal: QNAME exists (RFC 4592 §2.2.2), so canonical coverage
+	// alone is not a name error.
+	if strictlyBelow(covering.NextDomain, qname) {
+		return ErrNSECMissingCoverage
+	}
+	if err := rejectAncestorCutNSEC(qname, nsecSet); err != nil {
+		return err
+	}
+
 	ce := closestEncloserFromNSEC(qname, covering)
 	if ce == "" {
 		return ErrNSECMissingCoverage
@@ -81,6 +91,30 @@ func VerifyNameErrorNSEC(msg *dns.Msg, nsecSet []dns.RR) error {
 		}
 	}
 	return ErrNSECMissingCoverage
+}
+
+// strictlyBelow reports whether name is a proper descendant of ancestor.
+func strictlyBelow(name, ancestor string) bool {
+	return dns.CountLabel(name) > dns.CountLabel(ancestor) && dns.IsSubDomain(ancestor, name)
+}
+
+// rejectAncestorCutNSEC refuses a denial for qname when the set holds an
+// NSEC owned by a strict ancestor of qname that is a delegation point (NS
+// without SOA) or carries DNAME. RFC 6840 §4.1: such a record says nothing
+// about names below its owner — they belong to the child zone or are
+// redirected — so it MUST NOT be used to assume their nonexistence.
+func rejectAncestorCutNSEC(qname string, nsecSet []dns.RR) error {
+	for _, rr := range nsecSet {
+		nsec := rr.(*dns.NSEC)
+		if !strictlyBelow(qname, nsec.Header().Name) {
+			continue
+		}
+		if typesSet(nsec.TypeBitMap, dns.TypeDNAME) ||
+			(typesSet(nsec.TypeBitMap, dns.TypeNS) && !typesSet(nsec.TypeBitMap, dns.TypeSOA)) {
+			return ErrNSECBadDelegation
+		}
+	}
+	return nil
 }
 
 // closestEncloserFromNSEC derives the closest encloser of qname from the
@@ -187,6 +221,9 @@ func VerifyNODATANSEC(msg *dns.Msg, nsecSet []dns.RR) error {
 	}
 	if covering == nil {
 		return ErrNSECMissingCoverage
+	}
+	if err := rejectAncestorCutNSEC(qname, nsecSet); err != nil {
+		return err
 	}
 	ce := closestEncloserFromNSEC(qname, covering)
 	if ce == "" {
